@@ -105,8 +105,9 @@ class Target:
                 if meter:
                     meter.__enter__()
                 try:
-                    out = (asyncio.run(dpapi_ng.async_ncrypt_unprotect_secret(data, cache=cache)) if use_async
-                           else dpapi_ng.ncrypt_unprotect_secret(data, cache=cache))
+                    with taps.time_limit(30 + len(data) / 5000):
+                        out = (asyncio.run(dpapi_ng.async_ncrypt_unprotect_secret(data, cache=cache)) if use_async
+                               else dpapi_ng.ncrypt_unprotect_secret(data, cache=cache))
                 finally:
                     if meter:
                         meter.__exit__()
@@ -116,6 +117,8 @@ class Target:
                 res = "needs_network", ""
             except taps.BudgetExceeded as e:
                 res = ("kdf_budget" if "KDF" in str(e) else "step_budget"), "BudgetExceeded"
+            except taps.Hang:
+                res = "step_budget", "Hang"
             except MachineryError:
                 raise
             except RecursionError:
